@@ -435,6 +435,9 @@ pub enum Op {
 	Poison(Vec<Item>, BadOp, u16),
 	/// Put the database into the background-error state (as a failing worker does).
 	BgError,
+	/// a worker failed (background-error state, entered through the verif_store_err hook),
+	/// then the handle is dropped and the database opened again
+	ReopenAfterError,
 }
 
 /// Invalid operations of C08; `u8` selects among the columns the category applies to.
